@@ -6,8 +6,9 @@ package c13lib
 // RX_SOFTWARE, as C06's lsn.fallback does), so that the forwarder has no timestamp option to
 // add.  What must be forwarded then is stated by C13_forward_extensions: an end-to-end
 // extension that directly follows the SCION header goes out with all its options.
-// Packets with a hop-by-hop extension are their own kind (srv.fwdhbh): the pinned forwarder
-// leaves NextHdr = hop-by-hop on them and writes no extension at all (KNOWN_FINDINGS).
+// Packets with a hop-by-hop extension are their own kind (srv.fwdhbh): before the repair of the
+// forwarding branch NextHdr kept naming the hop-by-hop extension although none was written; now
+// they go out as SCION/UDP and are judged by the same forward oracle.
 
 import (
 	"fmt"
@@ -127,7 +128,7 @@ func (d *drv) runFwdNoTs(r *lib.Rng, n int, replay [][]string) {
 		}
 		i++
 		kind := "srv.fwdnots"
-		if strings.Contains(tags, ",hbh,") { // KNOWN_FINDINGS: comes out malformed
+		if strings.Contains(tags, ",hbh,") { // their own kind: found the malformed forward before its repair
 			kind = "srv.fwdhbh"
 		}
 		d.runSrvKind(kind, tags, []step{s})
